@@ -320,3 +320,74 @@ pub(crate) fn ref_set_stress(st: StressKind, stress: Option<bool>, sec: Option<b
         (None, Some(false)) => Some(if st == StressKind::Secondary { StressKind::Unstressed } else { st }),
     }
 }
+
+// ---------------------------------------------------------------------------------------------
+// order-independent reference for a matrix that names several features (C04): per node, the named
+// positive bits are set and the named negative bits cleared; an absent sub-node is created only
+// if a positive feature of it is named, and then every feature not named positive is negative.
+pub(crate) fn ref_apply_set(s: &Segment, named: &[(usize, bool)]) -> Segment {
+    let mut out = *s;
+    let mut ni = 0u8;
+    while ni < 7 {
+        let mut setm = 0u8;
+        let mut clrm = 0u8;
+        let mut k = 0;
+        while k < named.len() {
+            let (fi, pos) = named[k];
+            if REF_FEAT_NODE[fi] == ni {
+                if pos { setm |= REF_FEAT_MASK[fi] } else { clrm |= REF_FEAT_MASK[fi] }
+            }
+            k += 1;
+        }
+        if setm | clrm != 0 {
+            match ni {
+                0 => out.root = (s.root | setm) & !clrm,
+                1 => out.manner = (s.manner | setm) & !clrm,
+                2 => out.laryngeal = (s.laryngeal | setm) & !clrm,
+                _ => {
+                    let sub = (ni - 3) as usize;
+                    let cur = ref_sub(raw(&s.place), sub);
+                    if cur.is_some() || setm != 0 {
+                        let v = (cur.unwrap_or(0) | setm) & !clrm;
+                        out.place = ref_with_sub(raw(&out.place), sub, Some(v));
+                    }
+                }
+            }
+        }
+        ni += 1;
+    }
+    out
+}
+
+pub(crate) fn ref_match_set(s: &Segment, named: &[(usize, bool)]) -> bool {
+    let mut ok = true;
+    let mut k = 0;
+    while k < named.len() {
+        if !ref_match_feat(s, named[k].0, named[k].1) { ok = false; }
+        k += 1;
+    }
+    ok
+}
+
+/// node index as used by `Modifiers.nodes` (0 root .. 3 place, 4 labial .. 7 pharyngeal)
+pub(crate) fn ref_node_present(s: &Segment, node_index: usize) -> bool {
+    match node_index {
+        0 | 1 | 2 => true,
+        3 => ref_presence(raw(&s.place)) != 0,
+        _ => ref_sub(raw(&s.place), node_index - 4).is_some(),
+    }
+}
+
+/// `[-node]` removes the node, `[+node]` on an absent sub-node creates it empty, on a present one keeps it
+pub(crate) fn ref_apply_node(s: &Segment, node_index: usize, positive: bool) -> Segment {
+    let mut out = *s;
+    if node_index == 3 {
+        if !positive { out.place = Place::default(); }
+    } else if node_index >= 4 {
+        let sub = node_index - 4;
+        let cur = ref_sub(raw(&s.place), sub);
+        if !positive { out.place = ref_with_sub(raw(&s.place), sub, None); }
+        else if cur.is_none() { out.place = ref_with_sub(raw(&s.place), sub, Some(0)); }
+    }
+    out
+}
